@@ -1,0 +1,53 @@
+package validator
+
+import (
+	"github.com/jsightapi/jsight-schema-go-library/errors"
+	"github.com/jsightapi/jsight-schema-go-library/internal/json"
+	"github.com/jsightapi/jsight-schema-go-library/internal/lexeme"
+	"github.com/jsightapi/jsight-schema-go-library/notations/jschema/internal/schema"
+)
+
+// Validates the null which `nullable: true` admits in place of a value of the
+// referenced types: `@cat // {nullable: true}`. Anything but null is for the
+// validators of the referenced types to judge.
+
+type nullValidator struct {
+	node_   schema.Node
+	parent_ validator
+}
+
+func newNullValidator(node schema.Node, parent validator) *nullValidator {
+	return &nullValidator{
+		node_:   node,
+		parent_: parent,
+	}
+}
+
+func (v nullValidator) node() schema.Node {
+	return v.node_
+}
+
+func (v nullValidator) parent() validator {
+	return v.parent_
+}
+
+func (v *nullValidator) setParent(parent validator) {
+	v.parent_ = parent
+}
+
+func (v *nullValidator) feed(jsonLexeme lexeme.LexEvent) ([]validator, bool) {
+	defer lexeme.CatchLexEventError(jsonLexeme)
+
+	switch jsonLexeme.Type() { //nolint:exhaustive // We will throw a panic in over cases.
+	case lexeme.LiteralBegin:
+		return nil, false
+	case lexeme.LiteralEnd:
+		if jsonLexeme.Value().String() != "null" {
+			jsonType := json.Guess(jsonLexeme.Value()).LiteralJsonType() // can panic
+			panic(errors.Format(errors.ErrInvalidValueType, jsonType.String(), json.TypeNull.String()))
+		}
+		return nil, true
+	}
+
+	panic(errors.ErrUnexpectedLexInLiteralValidator)
+}
